@@ -21,7 +21,12 @@ CHECKS = {
              'deterministic virtual-time loop for every environment schedule of small instances (all completion '
              'orders, disturbances at every quiescent point and before every loop iteration), for TLC-generated '
              'scripts and seeded random scripts; each recorded event trace is checked by TLC against PipelineMon '
-             '(property clauses on observed events => VIOLATION) and PipelineTrace (behaviour of the model => DRIFT).',
+             '(property clauses on observed events => VIOLATION) and PipelineTrace (behaviour of the model => DRIFT).  '
+             'The layer above - Application.run/stop over a PipelineSeries of real pipelines - has its own model '
+             '(AppSeries.tla: series order, skip-after-stop, completion of non-skippable pipelines, failure -> break + '
+             'mapped exit code, run-once, series concurrency rule, termination), model-checked for <=4 pipelines and '
+             'checked on the real Application for every environment schedule of small instances plus TLC-generated and '
+             'random scenarios, each trace judged by AppSeriesMon and AppSeriesTrace.',
         design_ref='DESIGN.md 5 (C13), 12'),
 }
 
@@ -70,8 +75,13 @@ CHECKS['C02'] = dict(
          'answered by the REAL filter list built from a real argument vector (URLFiltersSetupTask._build_url_filters + '
          'SpanHostsFilter + FetchRule.consult_filters) on concrete URLInfo/URLRecord witnesses: a URL the real code would '
          'request although a rule forbids it is a violation.  At crawl level every request seen by the scripted server '
-         'in complete crawls of sites offering out-of-scope links, requisites and redirects is judged by CrawlMon.',
-    design_ref='DESIGN.md 5 (C02)')
+         'in complete crawls of sites offering out-of-scope links, requisites, redirects and sitemaps is judged by CrawlMon.  '
+         'For FTP crawls FtpScope.tla models wpull\'s FTP recursion (records with level / link type, parent listing, LIST / '
+         'RETR, glob expansion, 1-2 workers); TLC checks that the model never sends a command outside a declarative '
+         'reference (least fixed point over the server tree under -r, -l, --no-parent, --no-glob, -A/-R, -I/-X, regex), and '
+         'the TLC-generated scenarios plus a catalogue are replayed as complete real crawls against a scripted in-memory '
+         'FTP tree; every command the server receives is judged by FtpScopeMon, every recording by FtpScopeTrace.',
+    design_ref='DESIGN.md 5 (C02), 12')
 
 CHECKS['C14'] = dict(
     technique='TLA+ reference model (URLTable.tla) checked by TLC; real SQLiteURLTable / URLTableHookWrapper histories '
@@ -124,7 +134,9 @@ CHECKS['C04'] = dict(
          'independent minimal WARC reader extracts every record block; HttpWireMon (TLC) compares each response block with '
          'RefMessageBytes of the message the scripted server sent (every octet once, in order, nothing of the neighbouring '
          'exchanges, overrun octets excluded), each request block with the octets the server received, and checks one '
-         'request + one response/revisit record per completed exchange with WARC-Concurrent-To linkage.',
+         'request + one response/revisit record per completed exchange with WARC-Concurrent-To linkage; revisit records '
+         '(--warc-dedup) must hold exactly the received header block, requests with a body (POST) header and body, and an '
+         'archive that cannot be read back record by record is itself a violation.',
     design_ref='DESIGN.md 5 (C08/C04)')
 CHECKS['C19'] = dict(
     technique='TLA+ decoder model parameterised by measured zlib profiles, checked by TLC; TLC-enumerated compositions '
@@ -237,8 +249,9 @@ CHECKS['C12'] = dict(
          'instances; the unrepaired variant is shown to violate the clauses.  The real pool runs under a deterministic '
          'virtual-time loop: every environment choice at every quiescent point of small instances, a cancellation of each '
          'client before every loop iteration of base schedules, TLC-generated scripts, seeded random schedules up to N=5, '
-         'H=3, M=3, and through the real HTTP Client/Session (start/download/recycle/abort) with connect refusals, mid-body '
-         'closes and early exits; every recorded trace (with a projection of pools, idle/checked-out connection ids, waiter '
+         'H=3, M=3, through ConnectionPool.session() (normal and exceptional exit), and through the real HTTP Client/Session '
+         '(start/download/recycle/abort) directly and via HTTPProxyConnectionPool (plain and CONNECT) with connect refusals, '
+         'refused / cut tunnels, mid-body closes and early exits; every recorded trace (with a projection of pools, idle/checked-out connection ids, waiter '
          'counters, lock flags after each event) is checked by ConnPoolMon (VIOLATION) and ConnPoolTrace (DRIFT).',
     design_ref='DESIGN.md 5 (C12)')
 
